@@ -6,6 +6,7 @@ format_simple_type applies it; (N2c) helper-struct references equal the helper-s
 (N3) the reference rewriter visits every id position of RustType for every type-bearing field of every item kind;
 (N4) generic parameters are never prefixed; (N5) type-level ids are built without a container rename rule."""
 import json
+import os
 import re
 
 from .. import core, emit, inline, vt
@@ -620,6 +621,20 @@ def n9(ctx, rep):
                 if k_ not in ('guard', 'ty') and isinstance(y, (dict, list)):
                     yield from every(y, d + 1)
 
+    def is_star_const(o, file):
+        # an associated constant (`Self::WILDCARD`) is not evaluated by astq: its declaration is read from the file
+        o = vt.unvar(o)
+        if not (isinstance(o, dict) and o.get('k') == 'path' and file):
+            return False
+        nm = str(o.get('text', '')).replace(' ', '').split('::')[-1]
+        if not re.fullmatch(r'[A-Z][A-Z0-9_]*', nm):
+            return False
+        try:
+            src = open(os.path.join(ctx.repo, file)).read()
+        except OSError:
+            return False
+        return re.search(r'\bconst\s+' + nm + r'\s*:\s*[^=;]+=\s*"\*"\s*;', src) is not None
+
     def clauses(G):
         """(comparisons of type_name with a name, comparisons with the glob marker) written in the facts G"""
         blobs = [c for c in G['calls']] + [l.get('v') for l in G.get('lets', [])] + [G.get('tail')] + [r.get('v') for r in G.get('returns', [])] \
@@ -631,7 +646,7 @@ def n9(ctx, rep):
                 tn, other = sides(x)
                 if tn is None:
                     continue
-                if any(y.get('k') == 'lit' and y.get('v') == '*' for y in every(other)):
+                if any(y.get('k') == 'lit' and y.get('v') == '*' for y in every(other)) or is_star_const(other, G.get('file')):
                     globs.append(x)           # the marker itself, or a constant holding it
                 elif not (isinstance(vt.strip(other), dict) and vt.strip(other).get('k') == 'lit'):
                     names.append(x)
